@@ -199,6 +199,18 @@ func (t treeSpec) build(s *store.Store, seed *int) (*builtTree, error) {
 			return nil, err
 		}
 		return &builtTree{Kind: "fH1", Cid: c, Size: sz, Content: content}, nil
+	case "fR":
+		// a hand-written multi-block file whose nodes carry UnixFS type Raw
+		spec, ok := gen.HandByLabel("hand 2x2 leaves=raw blocksizes=all filesize=true nodetype=raw")
+		if !ok {
+			return nil, fmt.Errorf("hand-written DAG family changed")
+		}
+		c, content := spec.Build(s)
+		sz, err := model.TreeSum(s, c)
+		if err != nil {
+			return nil, err
+		}
+		return &builtTree{Kind: "fR", Cid: c, Size: sz, Content: content}, nil
 	case "fL":
 		// a hand-written file whose root under-declares the middle child's size
 		// (link Tsize 1): the file's bytes are still the concatenation of its leaves
@@ -373,6 +385,9 @@ func pathTrees(quick bool) []treeSpec {
 		treeSpec{Kind: "hamt", Children: []treeSpec{f1, {Kind: "fL"}, fN}},
 		treeSpec{Kind: "fE"}, treeSpec{Kind: "fH1"},
 		treeSpec{Kind: "dir", Children: []treeSpec{{Kind: "fE"}, {Kind: "fH1"}, f1}},
-		treeSpec{Kind: "hamt", Children: []treeSpec{{Kind: "fH1"}, {Kind: "fE"}, f1, f1}})
+		treeSpec{Kind: "hamt", Children: []treeSpec{{Kind: "fH1"}, {Kind: "fE"}, f1, f1}},
+		treeSpec{Kind: "fR"},
+		treeSpec{Kind: "dir", Children: []treeSpec{{Kind: "fR"}, f1}},
+		treeSpec{Kind: "hamt", Children: []treeSpec{f1, {Kind: "fR"}}})
 	return ts
 }
